@@ -9,9 +9,8 @@ CONSTANTS
   QS = {1, 2}
   ADVS = {0, 1, 3, 4, 5}
   LENS = {0, 1, 2, 3}
-  RESTART = FALSE
+  MODES = {"asis"}
   DUPOKS = {TRUE, FALSE}
-  DROPS = TRUE
   PRIVATES = {FALSE}
 INVARIANT Inv
 CHECK_DEADLOCK FALSE
